@@ -375,7 +375,7 @@ func runModel(c *core.Ctx, maxLen int, extra [][]int, pairs [][2][]int, deviatio
 	var perr error
 	res, err := tlc.Run(tlc.Opts{
 		SpecDir: filepath.Join(core.VerifRoot, "spec", "Hygiene"), Module: "MC_Hygiene", Cfg: "Hygiene.cfg",
-		Scratch: c.Scratch, Workers: c.Workers, Timeout: 12 * time.Minute, HeapMB: 5000, Coverage: coverage,
+		Scratch: c.Scratch, Workers: c.Workers, Timeout: 20 * time.Minute, HeapMB: 5000, Coverage: coverage,
 		Extra: map[string][]byte{"MC_Hygiene.tla": []byte(mc)},
 		OnGen: func(rec []byte) {
 			var p Prog
@@ -415,6 +415,9 @@ func tail(s string, n int) string {
 // ---- the check ------------------------------------------------------------------------------------
 
 func run(c *core.Ctx) error {
+	if c.Replay != "" {
+		return replay(c)
+	}
 	// instance: all bodies up to MaxLen statements x all 18 call sites, a seeded sample of longer
 	// bodies, and a seeded sample of two-macro programs
 	maxLen := 2
@@ -476,9 +479,10 @@ func run(c *core.Ctx) error {
 		c.Cov("reference_only_programs", len(small))
 	}
 
-	// quick tier: programs that both machines reject (an undefined local in the expansion or at the
-	// probe) need one checker run each; replay a seeded sample of them, all of them in the thorough tier
-	if !c.Thorough() {
+	// programs that both machines reject (an undefined local in the expansion or at the probe) need one
+	// checker run each: replay a seeded sample of them (700 quick / 8000 thorough); every program on
+	// which the machines differ or that the reference accepts is replayed
+	{
 		var rej []int
 		for i, p := range progs {
 			if p.Ref.Verdict == "rejected" && p.Impl.Verdict == "rejected" {
@@ -489,7 +493,7 @@ func run(c *core.Ctx) error {
 		for _, i := range rej {
 			drop[i] = true
 		}
-		for _, k := range c.SampleIdx(len(rej), 700) {
+		for _, k := range c.SampleIdx(len(rej), c.Pick(700, 8000)) {
 			delete(drop, rej[k])
 		}
 		var kept []*Prog
@@ -517,9 +521,9 @@ func run(c *core.Ctx) error {
 		}
 		byProg[p.ID] = [2]*unit{mu, hu}
 	}
-	// quick tier: the programs of the shape of the known stack corruption each need a file of their
-	// own (the VM may crash); replay a seeded sample of them, all of them in the thorough tier
-	if !c.Thorough() {
+	// the programs of the shape of the known stack corruption each need a file of their own (the VM
+	// may crash): replay a seeded sample of them (40 quick / 500 thorough)
+	{
 		var corrupt []int
 		for i, u := range units {
 			if u.variant == "macro" && u.p.Impl.Corrupt && u.p.Impl.Verdict == "ok" {
@@ -527,7 +531,7 @@ func run(c *core.Ctx) error {
 			}
 		}
 		keep := map[int]bool{}
-		for _, k := range c.SampleIdx(len(corrupt), 40) {
+		for _, k := range c.SampleIdx(len(corrupt), c.Pick(40, 500)) {
 			keep[corrupt[k]] = true
 		}
 		skipProg := map[int]bool{}
@@ -632,6 +636,9 @@ func run(c *core.Ctx) error {
 		switch {
 		case implSame && len(exact) > 0:
 			r["deviation"] = exact[0]
+		case p.Impl.Fuzzy && contains(fired, "uninit_local_leaks_into_conditional"):
+			// the model knows the caller's variable holds garbage, not which
+			r["deviation"] = "uninit_local_leaks_into_conditional"
 		case p.Impl.Corrupt && contains(fired, "unhygienic_statement_stack_imbalance"):
 			// the model does not predict WHICH local is lost, only that the run is corrupted
 			r["deviation"] = "unhygienic_statement_stack_imbalance"
